@@ -1,9 +1,32 @@
 PROPERTY = "C04"
 LEVEL = "proof"
-FUNCTIONS = []
-TRUSTED = []
-ASSUMPTIONS = []
-EXPLANATION = ""
+FUNCTIONS = [
+    "write_binary", "write_number", "write_number_signed", "read_number",
+    "read_octal", "read_binary", "update_checksum", "is_checksum_valid",
+    "decode_header", "fstree_add_generic", "mknode", "clamp_timestamp",
+    "child_by_name", "process_tarball (mtime path)", "is_sparse_region",
+    "strm_get_buffered_data", "strm_advance_buffer",
+    "next / read_link / detect_hard_link / store_hard_link (dir_hl.c)",
+    "write_tar_header", "write_header", "write_ext_header", "padd_file",
+]
+TRUSTED = [
+    "sprintf contract (sprintf_model.h): output LENGTH and literal characters as the C standard defines them for the formats of write_header.c; every digit is an arbitrary character of its alphabet - no obligation depends on a digit",
+    "CBMC library models of memcpy/memset/strlen/strcmp/strncpy/strdup/calloc/free; ctype.h via -D__NO_CTYPE (CBMC function models)",
+    "glibc gnu_dev_major/minor/makedev encoding (harness model)",
+    "rbtree_insert / rbtree_lookup contract (dir_hl): a finite map keyed by the tree's own compare function; insertion may fail",
+    "contracts of the archive stream (error, EOF, or a window of any size >= 1), of the source directory iterator, of sqfs_ostream_t.append (any result), of fstree_get_node_by_path (returns the parent), of canonicalize_name, tar_compute_checksum (value proved in C07)",
+]
+ASSUMPTIONS = [
+    "not decided: that GNU tar / Python accept the output, the byte-exact tar->sqfs->tar fixpoint across two tool runs, PAX record text and every octal/decimal digit produced by sprintf",
+    "C04.chksum: update_checksum formats exactly the computed sum (< 8^6, six digits) and is_checksum_valid accepts iff the field parses to the computed sum; that tar_compute_checksum ignores the chksum field is visible in checksum.c (second loop adds blanks) but the mechanical equivalence proof (two 512-term adder chains) did not finish and is not registered",
+    "8-byte base-256 fields hold 63 bits and must not start with 0xff: the round trip is claimed for v < 2^63 - 2^56 there (12-byte fields: all 64-bit values, negative values via two's complement)",
+    "bounded: sparse maps <= 3 entries (accounting <= 1 quick / 2 thorough), hard-link filter <= 3 entries, process_tarball one entry, write_tar_header for the enumerated name/target lengths; C04.sparse.accounting assumes a well-formed map (sorted, disjoint, inside the file) - for hostile maps record_size may wrap (memory safety of that case is C07.strm.*)",
+    "--conversion-check is off where the flagged conversions are intended narrowing (makedev, (unsigned long)value for %lo) - value fidelity of those fields is stated as named obligations instead",
+    "C04.root_becomes (prefix strip / link retarget strings) is not covered",
+]
+EXPLANATION = ("encode/decode pairs of the tar dialect are verified as inverse or against independent spec functions "
+               "on full 64-bit domains (number codec, header field rules, mtime clamp); list/stream logic (sparse "
+               "regions, hard-link filter, long-name records) against spec functions on bounded shapes")
 
 CT = {"__NO_CTYPE": None}
 
